@@ -5,8 +5,10 @@ The GCD field width `gb` is instantiated here with hardware floats, as deployed 
 import Qco.Driver.Hex
 import Qco.Spec.File
 import Qco.Train.WFc
+import Qco.Train.Model
 import Qco.Op.Decomp
 import Qco.Glue.Auto
+import Qco.Bits.Script
 import Qco.Glue.Cli
 import Qco.Op.Comp
 import Qco.DType.Timestamps
@@ -148,6 +150,7 @@ def analyzeChunk (d : DType) (fl : Flags) (level : Nat) (c : DChunk) (vals : Lis
     s!"gcdexact={b01 (gcdExactB gbFloat fl c.cm us)} emptyiff={b01 (ps.isEmpty == us.isEmpty)} grouped={b01 blocks.isSome} " ++
     s!"bodybits={bodyB} bodybytes={c.cm.bodyBytes} nprefs={ps.length} maxcode={maxcode} W={W} nus={us.length} " ++
     s!"metabits={(encChunkMeta gbFloat d fl c.cm).length + 8} prefbits={(ps.map fun p => (encPrefix gbFloat (prefDType d fl) fl c.cm.n (!fl.gcds || c.cm.commonGcd.isSome) p).length).foldl max 0} " ++
+    s!"explains={(Train.explainsWhy (us.mergeSort (· ≤ ·)) level fl.gcds c.cm.commonGcd.isSome gbFloat ps).replace " " "_"} " ++
     s!"dom={domCount} runs={runs} others={others} domjump={b01 domJump} allequal={b01 (us.all (· == us.headD 0))} tags={tags}"
   (str, blocks.map fun bs => { cm := c.cm, blocks := bs })
 
@@ -434,6 +437,29 @@ def cmdCops (args : List String) : String :=
       " ; ".intercalate outs.reverse
   | _ => "bad-args"
 
+/-! ### word-level bit packing (`bwords`, `bread`, `bwrite`): the Lean model of BitWords/BitReader/BitWriter -/
+
+def hexBytes (s : String) : List Nat :=
+  let rec go (cs : List Char) (acc : List Nat) : List Nat :=
+    match cs with
+    | a :: b :: rest => go rest ((Hex.hexVal a * 16 + Hex.hexVal b) :: acc)
+    | _ => acc.reverse
+  go s.toList []
+
+def parsePieces (s : String) : List (List Nat) :=
+  if s == "-" then [] else (s.splitOn ",").map fun p => if p == "_" then [] else hexBytes p
+
+def cmdBits (cmd : String) (args : List String) : String :=
+  match cmd, args with
+  | "bwords", pieces :: rest =>
+    let free := match rest with
+      | f :: _ => if f == "-" then [] else (f.splitOn ",").map String.toNat!
+      | [] => []
+    WB.wordsScript (parsePieces pieces) free
+  | "bread", pieces :: ops => WB.readerScript (parsePieces pieces) ops
+  | "bwrite", ops => WB.writerScript ops
+  | _, _ => "bad-args"
+
 def answer (line : String) : String :=
   match line.trimAscii.toString.splitOn " " with
   | "dec" :: args => cmdDec args
@@ -442,6 +468,9 @@ def answer (line : String) : String :=
   | "cops" :: args => cmdCops args
   | "ast" :: args => cmdAst args
   | "ts" :: args => cmdTs args
+  | "bwords" :: args => cmdBits "bwords" args
+  | "bread" :: args => cmdBits "bread" args
+  | "bwrite" :: args => cmdBits "bwrite" args
   | "cli" :: "rechunk" :: cs :: lens =>
     " ".intercalate ((Glue.rechunk cs.toNat! (lens.map fun l => List.replicate l.toNat! 0)).map fun c => toString c.length)
   | "cli" :: "limit" :: k :: lens =>
